@@ -790,7 +790,52 @@ def r17_10(prog: Program, rep):
         raise AnalysisError(f"expected >= 4 write-mode opens of work-tree paths in patch.py/sparse_patterns.py/index.py, found {n}")
 
 
+def r17_11(prog: Program, rep):
+    """(a) _remove_empty_parents never reaches the work-tree root or above: its loop is conditioned on CONTAINMENT below the root
+    (a prefix test with a separator / commonpath), not on inequality with one spelling of the root path; (b) the operations that
+    write at caller-given tree paths refuse to run without a work tree (repo.bare: Repo.path is then the control directory);
+    (c) submodule_update checks every component of a submodule path for symbolic links before it creates anything there."""
+    m = prog.module("dulwich/index.py")
+    f = m.funcs.get("_remove_empty_parents")
+    if f is None:
+        raise AnalysisError("index._remove_empty_parents not found")
+    loops = [l for l in ast.walk(f.node) if isinstance(l, ast.While)]
+    cont = any(isinstance(c, ast.Call) and isinstance(c.func, ast.Attribute) and c.func.attr in ("startswith", "is_relative_to", "relative_to") or
+               (isinstance(c, ast.Call) and (dotted(c.func) or "").endswith("commonpath")) for l in loops for c in ast.walk(l.test))
+    rep.ob("R17.11", m.rel, f.qual, "the walk up is bounded by containment below the root, not by inequality with one spelling of it", bool(loops) and cont,
+           "`parent != stop_at` is never false when the work tree is spelled with a trailing separator (core.worktree=/srv/site/): removing the last file "
+           "rmdir()s the work tree root and every empty directory above it", (loops or [f.node])[0].lineno)
+    pm = prog.module("dulwich/porcelain/__init__.py")
+    cw = pm.funcs.get("_checked_worktree_path")
+    wt = prog.module("dulwich/worktree.py").funcs.get("WorkTree.reset_index")
+    if cw is None or wt is None:
+        raise AnalysisError("_checked_worktree_path / WorkTree.reset_index not found")
+    for fn, rel in ((cw, pm.rel), (wt, "dulwich/worktree.py")):
+        g = cfg_of(prog, fn)
+        bare = [i for i, n in g.nodes.items() if n.kind == "test" and ".bare" in norm(n.ast)]
+        sinks = [i for i, n in g.nodes.items() for c in node_calls(n) if dotted(c.func) == "os.path.join" or callee_name(c) in ("build_index_from_tree",)]
+        bad = must_pass(g, sinks, bare) if sinks else []
+        rep.ob("R17.11", rel, fn.qual, "refuses to run without a work tree before any path is formed", bool(bare) and not bad,
+               "for a bare repository (and one opened through GIT_DIR alone) Repo.path is the control directory: a tree entry hooks/pre-commit or config is written "
+               "INTO it", fn.node.lineno)
+    sm = prog.module("dulwich/porcelain/submodule.py")
+    su = sm.funcs.get("submodule_update")
+    if su is None:
+        raise AnalysisError("porcelain.submodule.submodule_update not found")
+    g = cfg_of(prog, su)
+    checks = [i for i, n in g.nodes.items() for c in node_calls(n) if callee_name(c) in ("_check_submodule_path_not_symlink", "verify_leading_dirs") or dotted(c.func) == "os.lstat"]
+    # the paths that are materialised are those put on the work list (or, without a work list, the creating calls themselves)
+    sinks = [i for i, n in g.nodes.items() for c in node_calls(n) if isinstance(c.func, ast.Attribute) and c.func.attr == "append" and "submodule" in norm(c.func.value)]
+    if not sinks:
+        sinks = [i for i, n in g.nodes.items() for c in node_calls(n) if dotted(c.func) in ("os.makedirs", "open") or callee_name(c) in ("build_index_from_tree", "clone")]
+    bad = must_pass(g, sinks, checks) if sinks else []
+    rep.ob("R17.11", sm.rel, su.qual, "every component of the submodule path is lstat-checked for symlinks before anything is created", bool(checks) and bool(sinks) and not bad,
+           "gitlink paths are only name-validated: a symlink left at (or above) the submodule path by an earlier checkout is followed by makedirs/open/the checkout "
+           "of the submodule tree - files land outside the work tree or in .git/hooks", su.node.lineno)
+
+
 def run(prog: Program, rep, tier="quick"):
+    rep.rule("R17.11", "empty-parent removal bounded by containment; path-restricted checkout refuses bare repositories; submodule paths lstat-checked for symlinks")
     rep.rule("R17.10", "LEAF SYMLINK: every write-mode open of a work-tree path is dominated by a non-following symlink decision (replacer / islink / lstat / lexists); os.path.exists does not count")
     rep.rule("R17.8", "patch application: every validated / joined path has had the -p components stripped (the validated path is the path acted on)")
     rep.rule("R17.9", "_is_ntfs_dotgit skips only the dots/spaces that directly follow the stem (lstrip/loop idioms accepted, rstrip rejected)")
@@ -820,6 +865,7 @@ def run(prog: Program, rep, tier="quick"):
     r17_8(prog, rep)
     r17_9(prog, rep)
     r17_10(prog, rep)
+    r17_11(prog, rep)
     from sa.common import alias_guard
     alias_guard(prog, rep, "R17.1", {"validate_path", "verify_leading_dirs", "_tree_to_fs_path"})
     rep.floor("R17.1", 6)
